@@ -206,36 +206,18 @@ theorem mem_of_ind_false (N : Nat) (p : List Nat) (c : Nat) (h : (ind N p)[c]? =
   · have : (ind N p).length ≤ c := by rw [ind_length]; omega
     rw [List.getElem?_eq_none this] at h; simp at h
 
-theorem rowscan_fresh (cm : CMol) (cq : CQuery) (scope : List Bool) (qa : CQAtom) (n' : Nat) (path : List Nat) (matched : List Bool)
-    (cs : List Nat)
-    (h : (cm.atoms[n']?.bind fun nAtom =>
-        (slice? cm.bonds nAtom.from_ nAtom.to_).bind fun row => candidatesC cm cq scope qa n' matched path row) = some cs) :
-    ∀ c ∈ cs, matched[c]? = some false := by
-  cases ha : cm.atoms[n']? with
-  | none => rw [ha] at h; simp at h
-  | some nAtom =>
-    rw [ha] at h; simp only [Option.bind_some] at h
-    cases hr : slice? cm.bonds nAtom.from_ nAtom.to_ with
-    | none => rw [hr] at h; simp at h
-    | some row =>
-      rw [hr] at h; simp only [Option.bind_some] at h
-      exact candidatesC_fresh _ _ _ _ _ _ _ _ _ h
-
 theorem expandC_fresh (cm : CMol) (cq : CQuery) (scope : List Bool) (d n : Nat) (path : List Nat) (matched : List Bool) (cs : List Nat)
     (h : expandC cm cq scope d n path matched = some cs) : ∀ c ∈ cs, matched[c]? = some false := by
   unfold expandC at h
-  simp only [Option.bind_eq_bind, bind] at h
-  cases hqa : cq.atoms[d + 1]? with
-  | none => rw [hqa] at h; simp at h
-  | some qa =>
-    rw [hqa] at h; simp only [Option.bind_some] at h
-    by_cases hb : (qa.back != d) = true
-    · simp only [hb, if_true] at h
-      cases hp : path[qa.back]? with
-      | none => rw [hp] at h; simp at h
-      | some n' => rw [hp] at h; simp only [Option.bind_some] at h; exact rowscan_fresh _ _ _ _ _ _ _ _ h
-    · simp only [hb, if_false, Option.bind_some] at h
-      exact rowscan_fresh _ _ _ _ _ _ _ _ h
+  split at h
+  · simp at h
+  · split at h
+    · simp at h
+    · split at h
+      · simp at h
+      · split at h
+        · simp at h
+        · exact candidatesC_fresh _ _ _ _ _ _ _ _ _ h
 
 /-- **Lemma A**: the loop of `_isomorphism.pyx` with its `matched` array is the generic search (the array is the indicator of the path) -/
 theorem runLoopC_eq_runG (cm : CMol) (cq : CQuery) (scope : List Bool) (fuel : Nat) (stack : List (Nat × Nat)) (path : List Nat)
